@@ -13,8 +13,8 @@ import re
 from sa.interp import alpha, Interp, Scenario, Sym, Const, Bytes, render, merge_consts, lin_norm, lin_add
 from sa.loader import AnalysisError, dotted
 from sa import codec
-from sa.condtab import same
-from sa.looppaths import observe, path_cond, atom_value, fact_texts
+from sa.condtab import same, skeleton
+from sa.looppaths import observe, path_cond, atom_value, fact_texts, fresh_objects
 
 noinline = lambda f: False  # noqa: E731
 
@@ -81,10 +81,12 @@ def run(rep, prog, tier):
             sets = [(e[1], e[2]) for e in events if e[0] == 'store' and e[1].endswith('.nested')]
             found.append((fact_texts(facts), sets, ys))
             # the packet that is flagged is the packet that is yielded, built from the loop's signature
-            shape_ok = shape_ok and ys == [pkt] and status in ('normal', 'continue')
+            built = [e for e in events if e[0] == 'call' and e[1] == '%s.make_onepass' % r.var]
+            shape_ok = shape_ok and ys == [pkt] and status in ('normal', 'continue') and len(built) == 1
             if sets:
-                shape_ok = shape_ok and sets == [('%s.nested' % pkt, 'True')]
-                flagged.append(path_cond(facts))
+                # `ops.nested = True` under a decision, or `ops.nested = <condition>` on every path: flagged when both hold
+                shape_ok = shape_ok and len(sets) == 1 and sets[0][0] == '%s.nested' % pkt
+                flagged.append(('and', [path_cond(facts), skeleton(sets[0][1])]))
         rep.check(shape_ok, 'C20.4', 'PGPMessage.__iter__', 'yielded object %s' % found, 'the packet that is flagged is the packet that is yielded, built from the loop\'s signature',
                   where=it.where)
         if base is None:
@@ -92,7 +94,7 @@ def run(rep, prog, tier):
             if not any(f.rule == 'C20.2' for f in rep.findings):
                 rep.error('C20.4', 'PGPMessage.__iter__: one-pass loop iterates %s (unrecognised form)' % r.text)
             continue
-        last = [('atom', '%s is %s[0]' % (r.var, base)), ('atom', '%s[0] is %s' % (base, r.var))]
+        last = [skeleton('%s is %s[0]' % (r.var, base))]
         flag_ok = bool(flagged) and any(same(('or', flagged), x) for x in last)
         rep.check(flag_ok, 'C20.4', 'PGPMessage.__iter__', 'flag rule: %s' % found,
                   'the flag octet must be 1 exactly on the one-pass packet yielded last - the one for the first trailing signature - and 0 on all others '
@@ -134,7 +136,7 @@ def run(rep, prog, tier):
         ret = render(s.ret)
         m = re.match(r'^(\w+)\.__bytearray__\(\)$', ret)
         comp = m.group(1) if m and m.group(1) not in ba.params else None           # a locally constructed object renders as its first local
-        fresh = comp is not None and sum(1 for c in s.calls if c[0] == 'CompressedData' and not c[1]) == 1
+        fresh = comp is not None and fresh_objects(s.events).get(comp) == 'CompressedData()'
         everything = ('EACH($1 in %s;$1)' % me, 'list(%s)' % me, '[*%s]' % me, 'tuple(%s)' % me)
         rep.check(fresh and st.get('%s.calg' % comp) == '%s._compression' % me and alpha(st.get('%s.packets' % comp, '')) in everything, 'C20.5', 'PGPMessage.__bytearray__',
                   'compressed: %s' % st, 'the compressed packet holds every packet of the message, with the message\'s algorithm', where=ba.where)
@@ -150,7 +152,7 @@ def run(rep, prog, tier):
     ic = M.methods['is_compressed']
     outs = Interp(prog, Scenario(inline=noinline)).run(ic)
     unc = '%s._compression %%s CompressionAlgorithm.Uncompressed' % ic.params[0]
-    okc = value_is(outs, [('not', ('atom', unc % '==')), ('not', ('atom', unc % 'is'))])
+    okc = value_is(outs, [('not', skeleton(unc % '==')), ('not', skeleton(unc % 'is'))])
     rep.check(okc, 'C20.5', 'PGPMessage.is_compressed', '%s' % [(fact_texts(s.facts), render(s.ret)) for s in outs],
               'a message is compressed unless its algorithm is Uncompressed', where=ic.where)
     orf = M.methods['__or__']
@@ -159,7 +161,8 @@ def run(rep, prog, tier):
     live = [s for s in outs if s.raised is None]
     ok = bool(live)
     for s in live:
-        st = [(p, v) for p, v, l, _ in s.stores]
+        # `self |= pkt` keeps self (every return of __or__ is `return self`): stores on the result of the chain are stores on self
+        st = [('%s.%s' % (root_of(p.rsplit('.', 1)[0]), p.rsplit('.', 1)[1]) if '.' in p else p, v) for p, v, l, _ in s.stores]
         ok = ok and st == [('%s._compression' % me, '%s.calg' % o)] and root_of(render(s.ret)) == me
     inner = [r for r in recs if r.coll == '%s.packets' % o]
     ok = ok and len(inner) >= 1
@@ -240,7 +243,7 @@ def run(rep, prog, tier):
             st = {p: v for p, v, l, _ in s.stores}
             lits = sorted({p[:-len('.filename')] for p in st if p.endswith('.filename')})
             L = lits[0] if len(lits) == 1 else None                 # the literal packet, whatever the local is called
-            fresh = L is not None and sum(1 for c in s.calls if c[0] == 'LiteralData' and not c[1]) == 1
+            fresh = L is not None and fresh_objects(s.events).get(L) == 'LiteralData()'
             rep.check(fresh and st.get('%s.filename' % L) == fn, 'C20.6', 'PGPMessage.new', 'sensitive=%s -> filename %s' % (sens, st.get('%s.filename' % L)),
                       'a sensitive message carries the for-your-eyes-only marker _CONSOLE as its file name', where=nw.where, expected=fn, found=st.get('%s.filename' % L))
             comp = [v for k, v in st.items() if k.endswith('._compression')]
@@ -273,7 +276,6 @@ def root_of(text):
 
 def value_is(outs, expected):
     """Is the boolean function computed by the returning paths (decisions and returned expression) one of the expected ones?"""
-    from sa.condtab import skeleton
     terms = []
     for s in outs:
         if s.raised is not None or s.ret is None:
